@@ -181,7 +181,7 @@ pub fn model_select(fd: i32) -> i32 {
             }
             if let Some(off) = st.end_offset {
                 if consumed >= off {
-                    violation(&mut st, "did-not-stop-after-undecodable-pdu", "the thread went back to wait for traffic after the PDU that ends the session had been consumed".to_string());
+                    violation(&mut st, "did-not-stop-after-session-ending-pdu", "the thread went back to wait for traffic after the PDU that ends the session had been consumed".to_string());
                     st.teardown = true;
                     drop(st);
                     if let Some(s) = c.sync.borrow().as_ref() {
@@ -516,6 +516,8 @@ fn build_actions(script: &Script, peer: &mut TlsPeer, st: &mut State) -> Vec<Env
         End::DisconnectUltimatum => {
             let f = framing::tpkt(&framing::x224_dt(&mcs::disconnect_provider_ultimatum(3)));
             let rec = peer.encrypt(&f);
+            raw_off += rec.len();
+            st.end_offset = Some(raw_off);
             actions.push(EnvAction::Push(rec));
         }
         End::UndecodableRdpKind => {
